@@ -181,9 +181,9 @@ func init() {
 			sizes := []int{1, 2, 3, 7, 100, 1023, 1024, 1025, 4095, 4096, 4097, 8191, 8192, 8193, 20000}
 			// directed: a message larger than the 512 KiB node limit is read and consumed completely, the buffers are
 			// released (the oversized tail node is replaced), and the connection is used for the next message
-			for _, size := range []int{0, 4096} {
+			for _, size := range []int{4096} {
 				for _, big := range []string{"P600100,S600100", "R600100", "P100,S100,P600000,S600000", "P600100,S600000,R100"} {
-					for _, after := range []string{"X,P10,S10,B,R20,L,P3000,X,B", "L,X,L,B,P40"} {
+					for _, after := range []string{"X,P10,S10,B,R20,L,P3000,X,B"} {
 						t.Do(In{Nn(size), S(big + "," + after), S("100:0"), S("600000:0"), S("50:0"), S("3000:0")}, true)
 					}
 				}
